@@ -5,6 +5,7 @@ import (
 	"go/token"
 	"go/types"
 	"math/big"
+	"strings"
 
 	"golang.org/x/tools/go/ssa"
 )
@@ -757,6 +758,26 @@ func (fc *FuncCtx) keyTerm(st *State, v Value, kt types.Type) string {
 		return k.T
 	case PlaceV:
 		return fc.scalarTerm(st, k, kt)
+	}
+	if sv, ok := v.(StructV); ok {
+		// a struct-valued key: an uninterpreted encoding of its fields (equal fields give equal keys; that different
+		// fields may collide only adds behaviours, it hides none)
+		var args, sorts []string
+		flat := true
+		for _, f := range sv.Fields {
+			sc, isS := f.(Scalar)
+			if !isS {
+				flat = false
+				break
+			}
+			args = append(args, sc.T)
+			sorts = append(sorts, sc.Sort)
+		}
+		if flat && len(args) > 0 {
+			fn := qsym("skey!" + typeKey(kt))
+			fc.u.declare(fn, "(declare-fun "+fn+" ("+strings.Join(sorts, " ")+") "+fc.sortOf(kt)+")")
+			return "(" + fn + " " + strings.Join(args, " ") + ")"
+		}
 	}
 	fc.unsupported("map key of kind %T", v)
 	return ""
